@@ -52,6 +52,8 @@ type C15Step struct {
 	// done     complete the W-th pending seamed fork successfully (fake entry, never RPC-ready)
 	// fail     complete the W-th pending seamed fork with an error
 	// real     complete the W-th pending seamed fork by starting a real in-process node.Worker
+	// late     like real, but the fork seam returns LATE: only after the supervisor machine has processed
+	//          WorkerForked for that worker (the worker connects before its fork "completes")
 	// drain    complete pending seamed forks successfully, one after another, until none is left (at most N, default 16)
 	// err      AddErrWorker for the W-th tracked worker (N=1: wrapped ErrWorkerKill, N=2: unknown address, N=3: ErrWorkerHealth)
 	// err2     two AddErrWorker calls queued back to back (inside one Machine.Eval) for the W-th and (W+N)-th tracked worker
@@ -159,6 +161,21 @@ type c15Tracer struct {
 	startRecs []c15RecRef          // records of ForkingWorker transitions (tx = the requesting transition)
 	// notifications for the driver
 	events chan struct{}
+	// boot addresses for which a WorkerForked transition has ended
+	forked map[string]chan struct{}
+}
+
+// whenForked is closed once the supervisor has processed WorkerForked for the
+// worker that connected to this bootstrap address
+func (t *c15Tracer) whenForked(boot string) chan struct{} {
+	t.mx.Lock()
+	defer t.mx.Unlock()
+	ch := t.forked[boot]
+	if ch == nil {
+		ch = make(chan struct{})
+		t.forked[boot] = ch
+	}
+	return ch
 }
 
 // c15Round is one round of NormalizingPoolState's goroutine: the listing
@@ -414,6 +431,16 @@ func (t *c15Tracer) TransitionEnd(tx *am.Transition) {
 	}
 	a, r, m := t.s.VerifPool()
 	ev, name := t.classify(tx)
+	if strings.HasPrefix(name, "add "+c15S.WorkerForked) {
+		if boot := am.ParseArgs[node.A](tx.Mutation.Args).BootAddr; boot != "" {
+			ch := t.whenForked(boot)
+			select {
+			case <-ch:
+			default:
+				close(ch)
+			}
+		}
+	}
 	after := t.sidx(t.s.Mach.ActiveStates(nil))
 	before := t.sidx(tx.StatesBefore())
 	t.mx.Lock()
@@ -563,6 +590,12 @@ func (r *c15Run) waitFor(max time.Duration, cond func() bool) bool {
 	}
 }
 
+func (r *c15Run) note(msg string) {
+	r.mx.Lock()
+	defer r.mx.Unlock()
+	r.obs.Note = append(r.obs.Note, msg)
+}
+
 func (r *c15Run) nPending() int {
 	r.mx.Lock()
 	defer r.mx.Unlock()
@@ -649,7 +682,7 @@ func (r *c15Run) testFork(addr string) error {
 	switch mode {
 	case "ok":
 		return nil
-	case "real":
+	case "real", "late":
 		w, err := node.NewWorker(r.ctx, "c15", nstates.WorkerSchema, c15Wk.Names(), nil)
 		if err != nil {
 			return fmt.Errorf("%w: %v", errC15ForkFail, err)
@@ -671,6 +704,16 @@ func (r *c15Run) testFork(addr string) error {
 		r.real[addr] = cw
 		r.real[w.LocalAddr] = cw
 		r.mx.Unlock()
+		if mode == "late" {
+			// event-driven: the worker has dialed the bootstrap, the supervisor has
+			// connected back and handled WorkerForked; only now the seam reports
+			select {
+			case <-r.tr.whenForked(addr):
+			case <-time.After(3 * time.Second):
+				r.note("late seam: WorkerForked not seen in 3s")
+			case <-r.ctx.Done():
+			}
+		}
 		return nil
 	}
 	return errC15ForkFail
@@ -788,7 +831,7 @@ func (r *c15Run) step(st C15Step) {
 				want := r.expectedReady()
 				r.waitFor(time.Second, func() bool { return r.readyCount() == want })
 			} else {
-				r.obs.Note = append(r.obs.Note, "real worker did not report in 4s")
+				r.note("real worker did not report in 4s")
 			}
 		}
 		r.unstable.Add(-1)
@@ -847,6 +890,19 @@ func (r *c15Run) step(st C15Step) {
 		s.Mach.Add1(c15S.PoolReady, nil)
 	case "pr-":
 		s.Mach.Remove1(c15S.PoolReady, nil)
+	case "late":
+		r.unstable.Add(1)
+		if p := r.release(st.W, "late"); p != nil {
+			if r.waitFor(4*time.Second, func() bool { return r.sawSince(from, "(ERekey") }) {
+				r.waitFor(time.Second, func() bool { return r.sawSince(from, "(ESetIns") })
+			} else {
+				r.note("late seam: worker did not report in 4s")
+			}
+			// the worker is connected but (on the code as found) tracked only under
+			// its boot address: nothing to wait for on the ready count
+			time.Sleep(20 * time.Millisecond)
+		}
+		r.unstable.Add(-1)
 	case "flip", "gone", "work":
 		r.mx.Lock()
 		var live []*c15Worker
@@ -925,7 +981,7 @@ func c15ExecPool(in *C15Input) *c15Obs {
 	}
 	r.tr = &c15Tracer{TracerNoOp: &am.TracerNoOp{Id: "c15"}, s: s, names: names, idx: idx,
 		keys: map[string]int{}, unstable: &r.unstable, events: make(chan struct{}, 1), last: time.Now(),
-		open: map[uint64]*c15Round{}, forkRound: map[*am.Mutation]int{}}
+		open: map[uint64]*c15Round{}, forkRound: map[*am.Mutation]int{}, forked: map[string]chan struct{}{}}
 	_, _ = s.Mach.BindTracer(r.tr)
 	s.TestFork = r.testFork
 	s.TestKill = r.testKill
@@ -1441,6 +1497,49 @@ func c15GenNormalize(r *Rng) *C15Input {
 	return in
 }
 
+// c15GenLate: small pools whose forks are completed by real in-process workers,
+// some through a late-returning seam (WorkerForked is handled before the
+// SetWorker of the same fork), mixed with prompt ones, fake entries, further
+// fork requests, normalizer rounds, kills and errors.
+func c15GenLate(r *Rng) *C15Input {
+	in := &C15Input{ErrKill: r.Range(1, 3), ConnMs: 5000, SetPool: r.Chance(20)}
+	in.Max = r.Range(1, 3)
+	in.Min = r.Range(0, in.Max)
+	in.Warm = r.Range(0, 2)
+	if in.Min+in.Warm == 0 {
+		in.Warm = 1
+	}
+	add := func(op string, w, n int) { in.Steps = append(in.Steps, C15Step{Op: op, W: w, N: n}) }
+	add("wait", 0, 20)
+	n := r.Range(2, 7)
+	for i := 0; i < n; i++ {
+		switch x := r.Intn(100); {
+		case x < 45:
+			add("late", r.Intn(3), 0)
+		case x < 55:
+			add("real", r.Intn(3), 0)
+		case x < 63:
+			add("done", r.Intn(3), 0)
+		case x < 75:
+			add("fork", 0, 0)
+		case x < 82:
+			add("norm", 0, 0)
+		case x < 87:
+			add("kill", r.Intn(4), 0)
+		case x < 92:
+			add("err", r.Intn(4), 0)
+		case x < 96:
+			add("pr+", 0, 0)
+		default:
+			add("wait", 0, r.Range(10, 60))
+		}
+	}
+	if r.Chance(50) {
+		add("drain", 0, 0)
+	}
+	return in
+}
+
 func c15GenExplore(r *Rng, which string, nStates int) *C15Input {
 	in := &C15Input{Explore: which}
 	n := r.Range(8, 40)
@@ -1521,8 +1620,18 @@ func runC15(c *Ctx) error {
 			out.Count("free_slots_over_target", fmt.Sprint(in.Max > min(in.Min, in.Max)+in.Warm))
 			out.Count("normalizer_rounds_per_case", bucket(obs.Rounds))
 			errored := map[string]bool{}
+			inserted := map[string]bool{}
 			for i := range obs.Recs {
 				rec := &obs.Recs[i]
+				if f := strings.Fields(strings.Trim(rec.Ev, "()")); rec.Acc && len(f) >= 2 {
+					switch f[0] {
+					case "ESetIns":
+						inserted[f[1]] = true
+					case "ERekey":
+						out.Count("worker_connection_vs_fork_completion",
+							map[bool]string{true: "WorkerForked after SetWorker", false: "WorkerForked BEFORE SetWorker (late seam)"}[inserted[f[1]]])
+					}
+				}
 				if strings.HasPrefix(rec.Ev, "(EErr ") && rec.Acc && strings.HasSuffix(rec.Ev, "true)") {
 					errored[strings.Fields(rec.Ev)[1]] = true
 				}
@@ -1602,16 +1711,19 @@ func runC15(c *Ctx) error {
 	nPool := c.N(260, 4000)
 	nReal := c.N(24, 300)
 	nNorm := c.N(70, 1200)
+	nLate := c.N(24, 400)
 	nExp := c.N(300, 6000)
 	switch os.Getenv("C15_ONLY") { // debugging aid
 	case "pool":
-		nReal, nExp, nNorm = 0, 0, 0
+		nReal, nExp, nNorm, nLate = 0, 0, 0, 0
 	case "real":
-		nPool, nExp, nNorm = 0, 0, 0
+		nPool, nExp, nNorm, nLate = 0, 0, 0, 0
 	case "explore":
-		nPool, nReal, nNorm = 0, 0, 0
+		nPool, nReal, nNorm, nLate = 0, 0, 0, 0
 	case "normalize":
-		nPool, nReal, nExp = 0, 0, 0
+		nPool, nReal, nExp, nLate = 0, 0, 0, 0
+	case "late":
+		nPool, nReal, nExp, nNorm = 0, 0, 0, 0
 	}
 	for i := 0; i < nPool; i++ {
 		jobs = append(jobs, &job{kind: "gen:pool", in: c15GenPool(c.Rng, false)})
@@ -1621,6 +1733,9 @@ func runC15(c *Ctx) error {
 	}
 	for i := 0; i < nNorm; i++ {
 		jobs = append(jobs, &job{kind: "gen:pool-normalize", in: c15GenNormalize(c.Rng)})
+	}
+	for i := 0; i < nLate; i++ {
+		jobs = append(jobs, &job{kind: "gen:pool-late-seam", in: c15GenLate(c.Rng)})
 	}
 	runAll(jobs, 6)
 	// the sets cases are small
